@@ -108,7 +108,7 @@ Qed.
 
 (* ---- binary64: the returned cubic overshoots the knot ordinates by at most the construction's running error bound ---- *)
 From Flocq Require Import Core BinarySingleNaN.
-Require Import PP.FloatModel PP.ErrorBound PP.ErrorRun PP.SafeDec.
+Require Import PP.FloatModel PP.ErrorBound PP.ErrorRun PP.SafeDec PP.Proofs.SplineFloat.
 From Coq Require Import QArith Qreals.
 Local Open Scope R_scope.
 Theorem C05_no_overshoot_float : forall (f0 x0 y0 f1 x1 y1 : F),
